@@ -212,6 +212,13 @@ func history(r *vh.Run, hidx int) {
 	for p := 0; p < 3; p++ {
 		pool = append(pool, mk(fmt.Sprintf("P%d", p), ""))
 	}
+	// shared artifacts: any client may push one again or delete it by digest while another does the same.  Seen as one
+	// object ("art:<digest>") such an artifact is either there - served by digest and listed under its subject - or
+	// not: every observation of either side is a read of that one bit
+	var apool []*vh.Man
+	for p := 0; p < 2+rng.Intn(2); p++ {
+		apool = append(apool, mk(fmt.Sprintf("SA%d", p), subjects[rng.Intn(len(subjects))]))
+	}
 	byD := map[string]*vh.Man{}
 	var bmu sync.Mutex
 	for _, p := range pool {
@@ -242,6 +249,27 @@ func history(r *vh.Run, hidx int) {
 			time.Sleep(time.Duration(200+rand.Intn(800)) * time.Microsecond)
 		}
 	}()
+	// a client whose only job is to give the background collection something to prune in most passes: it pushes
+	// a unique untagged manifest and removes its body through the blob API, which leaves an index entry without
+	// content.  Nothing it writes is part of the recorded history.
+	gcwg.Add(1)
+	go func() {
+		defer gcwg.Done()
+		for n := 0; ; n++ {
+			select {
+			case <-stopGC:
+				return
+			default:
+			}
+			g := mk(fmt.Sprintf("garbage%d", n), "")
+			if rs := vh.Do(srv, vh.Req{Method: "PUT", URL: "/v2/" + repo + "/manifests/" + g.D, H: map[string]string{"Content-Type": g.MT}, Body: g.Raw}); rs.Status == 201 {
+				if ds := vh.Do(srv, vh.Req{Method: "DELETE", URL: "/v2/" + repo + "/blobs/" + g.D}); ds.Status == 202 {
+					r.Count("prunable_entries_created", 1)
+				}
+			}
+			time.Sleep(time.Duration(100+rand.Intn(400)) * time.Microsecond)
+		}
+	}()
 	var wg sync.WaitGroup
 	for c := 0; c < nclients; c++ {
 		wg.Add(1)
@@ -265,7 +293,42 @@ func history(r *vh.Run, hidx int) {
 				}
 			}
 			for n := 0; n < nops; n++ {
-				switch k := crng.Intn(12); {
+				switch k := crng.Intn(15); {
+				case k == 12: // push a shared artifact (again)
+					a := apool[crng.Intn(len(apool))]
+					t0 := rc.now()
+					rs := vh.Do(srv, vh.Req{Method: "PUT", URL: "/v2/" + repo + "/manifests/" + a.D, H: map[string]string{"Content-Type": a.MT}, Body: a.Raw})
+					t1 := rc.now()
+					o := outcome(rs.Status, rs.Panic != "")
+					rc.add(c, t0, t1, in{"art:" + a.D, "put", "P"}, o)
+					rc.add(c, t0, t1, in{"artp:" + a.D, "put", "P"}, o)
+					rc.add(c, t0, t1, in{"artl:" + a.D, "put", "P"}, o)
+					rc.add(c, t0, t1, in{"ref:" + a.Subject, "add", a.D}, o)
+					r.Count("shared_artifact_pushes", 1)
+				case k == 13: // delete a shared artifact by digest
+					a := apool[crng.Intn(len(apool))]
+					t0 := rc.now()
+					rs := vh.Do(srv, vh.Req{Method: "DELETE", URL: "/v2/" + repo + "/manifests/" + a.D})
+					t1 := rc.now()
+					o := outcome(rs.Status, rs.Panic != "")
+					rc.add(c, t0, t1, in{"art:" + a.D, "del", ""}, o)
+					rc.add(c, t0, t1, in{"artp:" + a.D, "del", ""}, o)
+					rc.add(c, t0, t1, in{"artl:" + a.D, "del", ""}, o)
+					rc.add(c, t0, t1, in{"ref:" + a.Subject, "rem", a.D}, o)
+					r.Count("shared_artifact_deletes", 1)
+				case k == 14: // is a shared artifact served by digest?
+					a := apool[crng.Intn(len(apool))]
+					t0 := rc.now()
+					rs := vh.Do(srv, vh.Req{Method: "HEAD", URL: "/v2/" + repo + "/manifests/" + a.D, H: map[string]string{"Accept": vh.AcceptAll}})
+					t1 := rc.now()
+					o := out{Val: "P"}
+					if rs.Status == 404 {
+						o.Val = ""
+					} else if rs.Status != 200 {
+						o = out{Unknown: true}
+					}
+					rc.add(c, t0, t1, in{"art:" + a.D, "read", ""}, o)
+					rc.add(c, t0, t1, in{"artp:" + a.D, "read", ""}, o)
 				case k < 3: // tag push (pool image or a fresh one)
 					m := pool[crng.Intn(len(pool))]
 					if crng.Intn(3) == 0 {
@@ -391,6 +454,16 @@ func history(r *vh.Run, hidx int) {
 							m[d.Digest] = true
 						}
 						o.Val = encSet(m)
+						for _, a := range apool {
+							if a.Subject == sj {
+								v := ""
+								if m[a.D] {
+									v = "P"
+								}
+								rc.add(c, t0, t1, in{"art:" + a.D, "read", ""}, out{Val: v})
+								rc.add(c, t0, t1, in{"artl:" + a.D, "read", ""}, out{Val: v})
+							}
+						}
 					}
 					rc.add(c, t0, t1, in{"ref:" + sj, "read", ""}, o)
 				}
@@ -400,6 +473,47 @@ func history(r *vh.Run, hidx int) {
 	wg.Wait()
 	close(stopGC)
 	gcwg.Wait()
+	// one more collection, now alone: it prunes what the garbage client left behind (the layout check below expects
+	// no entry without content)
+	_ = srv.VerifGC(context.Background(), repo)
+	// the last reads of the history: every tag, so that an acknowledged push that was lost afterwards (for instance to
+	// a collection that wrote back an older index) has no sequential explanation
+	for _, t := range tags {
+		t0 := rc.now()
+		rs := vh.Do(srv, vh.Req{Method: "HEAD", URL: "/v2/" + repo + "/manifests/" + t, H: map[string]string{"Accept": vh.AcceptAll}})
+		t1 := rc.now()
+		if rs.Status == 200 || rs.Status == 404 {
+			v := ""
+			if rs.Status == 200 {
+				v = rs.H.Get("Docker-Content-Digest")
+			}
+			rc.add(nclients, t0, t1, in{"tag:" + t, "read", ""}, out{Val: v})
+			r.Count("quiescent_tag_reads", 1)
+		}
+	}
+	var quiescentTorn []*vh.Man
+	// two observations of every shared artifact at quiescence, recorded as the last reads of the history: served by
+	// digest, listed under its subject
+	for _, a := range apool {
+		t0 := rc.now()
+		hs := vh.Do(srv, vh.Req{Method: "HEAD", URL: "/v2/" + repo + "/manifests/" + a.D, H: map[string]string{"Accept": vh.AcceptAll}})
+		t1 := rc.now()
+		if hs.Status == 200 || hs.Status == 404 {
+			rc.add(nclients, t0, t1, in{"art:" + a.D, "read", ""}, out{Val: map[bool]string{true: "P", false: ""}[hs.Status == 200]})
+			rc.add(nclients, t0, t1, in{"artp:" + a.D, "read", ""}, out{Val: map[bool]string{true: "P", false: ""}[hs.Status == 200]})
+		}
+		t0 = rc.now()
+		ls := vh.Do(srv, vh.Req{Method: "GET", URL: "/v2/" + repo + "/referrers/" + a.Subject})
+		t1 = rc.now()
+		if ls.Status == 200 {
+			rc.add(nclients, t0, t1, in{"art:" + a.D, "read", ""}, out{Val: map[bool]string{true: "P", false: ""}[strings.Contains(string(ls.Body), a.D)]})
+			rc.add(nclients, t0, t1, in{"artl:" + a.D, "read", ""}, out{Val: map[bool]string{true: "P", false: ""}[strings.Contains(string(ls.Body), a.D)]})
+		}
+		r.Count("quiescent_shared_artifact_observations", 2)
+		if (hs.Status == 200 || hs.Status == 404) && ls.Status == 200 && (hs.Status == 200) != strings.Contains(string(ls.Body), a.D) {
+			quiescentTorn = append(quiescentTorn, a)
+		}
+	}
 	end := rc.now() + 1
 	// operations with an unknown outcome stay open until the end of the history
 	for i := range rc.ops {
@@ -476,8 +590,23 @@ func history(r *vh.Run, hidx int) {
 		}
 		sort.Strings(bad)
 		_ = info
+		badSet := map[string]bool{}
+		for _, k := range bad {
+			badSet[k] = true
+		}
 		for _, k := range bad {
 			kindk := strings.SplitN(k, ":", 2)[0]
+			if kindk == "art" {
+				d := strings.SplitN(k, ":", 2)[1]
+				if !badSet["artp:"+d] && !badSet["artl:"+d] {
+					// Each side on its own (served by digest; listed) has a sequential explanation: the only thing
+					// that has none is the pairing.  A push or delete of a manifest with a subject updates the index
+					// twice (the entry, then the regenerated referrers answer - recorded finding K2); a read between
+					// the two sees one side only.  Whether that ever becomes permanent is decided at quiescence below.
+					r.Violation("K2:art-window", fmt.Sprintf("a read saw shared artifact %s half-way through a push or delete (served by digest but not listed, or the reverse) (%s, %d clients)", vh.Short(d), kind, nclients), wit(k))
+					continue
+				}
+			}
 			r.Violation("not-linearizable:"+kindk, fmt.Sprintf("the recorded history of %s (%s, %d clients) has no sequential explanation consistent with real time", describeKey(k), kind, nclients), wit(k))
 		}
 	}
@@ -489,6 +618,9 @@ func history(r *vh.Run, hidx int) {
 		return m
 	}()))
 	// ---- quiescent checks
+	for _, a := range quiescentTorn {
+		r.Violation("quiescent:shared-artifact-torn", fmt.Sprintf("at quiescence artifact %s is served by digest and not listed under its subject, or listed and not served (%s): no order of the acknowledged pushes and deletes leaves that state", vh.Short(a.D), kind), wit("art:"+a.D))
+	}
 	for d, sj := range artAck {
 		if artDel[d] {
 			continue
@@ -535,6 +667,8 @@ func describeKey(k string) string {
 		return "tag " + p[1]
 	case "ref":
 		return "the referrers of " + vh.Short(p[1])
+	case "art":
+		return "shared artifact " + vh.Short(p[1]) + " (served by digest <=> listed under its subject)"
 	}
 	return "manifest " + vh.Short(p[1])
 }
@@ -549,5 +683,5 @@ func main() {
 	r.Require("histories", int64(n))
 	r.Require("operations", int64(n*40))
 	r.RequireDistinct("overlap_shapes", n/2)
-	r.Finish("short concurrent histories: 4-8 clients x 6-10 operations on one repository (tag pushes of shared and fresh images over 2-3 tags, tag deletes, deletes by digest, artifact pushes to 1-3 shared subjects incl. a missing one, artifact deletes, reads of tags / manifests / referrers), a background collection loop with a retain-everything policy, both stores, seeded jitter before lock acquisitions in the vsync build; every history checked with porcupine (nondeterministic model, partitioned by object) and at quiescence; a case is one history, distinct = distinct interval orders (call/return shapes) with at least two overlapping requests", "histories", "overlap_shapes")
+	r.Finish("short concurrent histories: 4-8 clients x 6-10 operations on one repository (tag pushes of shared and fresh images over 2-3 tags, tag deletes, deletes by digest, artifact pushes to 1-3 shared subjects incl. a missing one, artifact deletes, 2-3 shared artifacts that any client pushes again, deletes and probes, reads of tags / manifests / referrers), a background collection loop with a retain-everything policy and a client that keeps creating index entries without content for it to prune, final reads of every tag and shared artifact recorded as the last operations, both stores, seeded jitter before lock acquisitions in the vsync build; every history checked with porcupine (nondeterministic model, partitioned by object) and at quiescence; a case is one history, distinct = distinct interval orders (call/return shapes) with at least two overlapping requests", "histories", "overlap_shapes")
 }
